@@ -229,6 +229,10 @@ def do_replay(prop: str, path: str) -> int:
         # C16: a registry of realistic size changed by a concurrent task k loop iterations after an anchor
         from .props import churn
         return churn.replay(case)
+    if "enterfail" in case:
+        # C16: a step of __aenter__ fails or the task is cancelled k loop iterations after the statement began
+        from .props import enterfail
+        return enterfail.replay(case)
     if "interference" in case:
         from .props import codec_interference
         codec_interference.replay(case)
